@@ -15,6 +15,8 @@ EXPLANATION = (
     "chunk handed out; the memo is cleared on every path that consumed bytes; (g) the bounded reader is created only "
     "after `remaining() >= len`. Independence from chunking beyond (g) (cursor arithmetic in buf.rs) is value-level "
     "and not decided.")
+# every anchor of these rules lives in the h3 crate: thorough tier repeats them on the feature-less build
+EXTRA_CONFIGS = ["h3-plain"]
 RULES = "C02-a exact consumption; C02-b truncation malformed; C02-c unknown skipped; C02-d end of stream; C02-e error tables; C02-f who writes segmentation state; C02-g completeness before decode"
 
 FR = "h3::proto::frame::"
